@@ -84,7 +84,7 @@ func c05Step(t *rapid.T) kit.Argv {
 	case 7:
 		a := []string{cn("SRANDMEMBER"), k}
 		if rapid.Bool().Draw(t, "cnt") {
-			a = append(a, pick(t, "c", "0", "1", "-1", "2", "-2", "3", "-5", "8", "9", "-20", "100", "2147483647", "2147483648", "4294967296", "9223372036854775807"))
+			a = append(a, pick(t, "c", "0", "1", "-1", "2", "-2", "3", "-5", "8", "9", "-20", "100", "2147483648", "2147483648", "9223372036854775807", "4294967296"))
 		}
 		return kit.A(a...)
 	case 8:
